@@ -12,6 +12,10 @@ CLAIMED = {
  'C06': ('5.6', 'Key injectivity, latest-wins (also within a set and for later sets of the same message), other version/domain untouched, exporter isolation for every datagram, not-found behaviour -- proved on the model of the pipe and template store; multi-exporter histories through the real NetFlowPipe compared with the model.', 'Partial: the refinement to a map keyed by (exporter, version, domain, id) is proved as its ingredients, not as a single theorem over all histories. '),
  'C07': ('5.7', 'One message per data record for every decoded packet, records*min-size <= set bytes for every byte string and template (none invented), v5 count bounded by the bytes present; per-datagram Send counts and order through the real pipe compared with the model, plus an implementation-only bound oracle.', 'Partial: sFlow sample counts are covered with C04/C09 when built. '),
  'C11': ('5.11', 'For every decoded packet and sampling state: each message carries the rate announced in the same packet, else the stored rate of (address, version, domain), else 0; the store afterwards changes only that key; v5 carries its own 14-bit interval; histories with several ports per IP through the real producer compared with the model.', ''),
+
+ 'C04': ('5.3', 'Unknown records are skipped by their declared length without disturbing what follows (every format/body/continuation) and XDR strings are consumed with their padding -- proved; the datagram round trip over an independent XDR encoder is evaluated in Coq on generated datagrams (c04_roundtrip_partial) and checked against the Go decoder on every run, with byte-level mutants.', 'Partial: decode(encode S) = S is not proved for all S; it rests on the correspondence run. '),
+ 'C09': ('5.9', 'One message per flow/expanded-flow sample, other header protocols only set bytes, gateway AS rules -- proved on the model of the sFlow producer; datagrams mixing all record kinds in random order, raw headers that are (cut) captures of model frames, through the real SFlowPipe compared with the model on every column.', 'Partial: the reference mapping is the model itself (no separate per-column reference). '),
+ 'C10': ('5.10', 'Inner (tunnelled) headers never change an outer column for any byte string, and no parser can panic -- proved; complete captures of layered model frames equal an independent reference; EVERY capture length compared with the model and judged by the property quantifier; exhaustive ethertype/protocol dispatch sweeps.', 'Partial: parse(encode f) = ref f is not proved for all frames (evaluated in Coq on generated frames, compared on every run). '),
 }
 props = [json.loads(l) for l in open(os.path.join(V, 'properties.jsonl'))]
 checks, na = [], []
